@@ -68,7 +68,7 @@ func ecmaGoroutines() (int, string) {
 
 func Run(cfg fw.Config, rec *fw.Rec) {
 	rec.Rule = "14 non-terminating interpreted scripts (while/for with property, array and string operations, unbounded and mutual recursion, loops inside try/catch and try/finally, closures, binding mutation, emitting, looping getters of the returned object) x deadlines {already expired, 0, 1, 5, 20, 100, 300 ms} x {deadline, asynchronous cancel at a pseudo-random instant, cancel of a context that also has a far deadline, cancel of an ancestor context} x concurrency {1, 4, 16, 64} x {Interpreter.Exec, Spec.Walk with 3 error settings, and with a spec-supplied error node that runs the same script as its action or guard}; each call must return the timeout error no later than deadline + 10 s (hard bound; observed latencies reported), the walk must route it like any action error, and after each combination no goroutine with an interpreter frame may remain (polled up to 5 s); non-trivial = execution that was interrupted; distinct by (script, deadline, cancel mode, concurrency, via)"
-	rec.Required = []string{"interrupted", "interrupted_async_cancel", "interrupted_by_cancel_before_a_far_deadline", "routed_as_action_error", "no_goroutine_left", "concurrency_64", "already_expired", "no_goroutine_left_after_terminating_script_under_live_context", "walk_returned_from_a_looping_error_node"}
+	rec.Required = []string{"interrupted", "interrupted_async_cancel", "interrupted_by_cancel_before_a_far_deadline", "routed_as_action_error", "no_goroutine_left", "concurrency_64", "already_expired", "no_goroutine_left_after_terminating_script_under_live_context", "walk_returned_from_a_looping_error_node", "uncompiled_executions_with_different_deadlines"}
 	rec.Assume = []string{"time is spent in interpreted code, not in one long built-in call", "hard bound deadline + 10 s; lateness below the bound is reported, not judged"}
 	interp := ecmascript.NewInterpreter()
 	var combos []combo
@@ -344,6 +344,40 @@ func Run(cfg fw.Config, rec *fw.Rec) {
 			rec.Nontrivial("ending:" + e.Name)
 		}
 		liveCancel()
+	}
+	// executions that were not compiled beforehand (Exec compiles on the fly), overlapping on
+	// one interpreter with very different deadlines: each is bound by its own context only
+	if cfg.Batch == 0 {
+		for k := 0; k < 6; k++ {
+			holderCtx, holderCancel := context.WithTimeout(context.Background(), 30*time.Second)
+			holderDone := make(chan struct{})
+			started := make(chan struct{})
+			go func() {
+				defer close(holderDone)
+				close(started)
+				interp.Exec(holderCtx, match.Bindings{"n": 1.0}, nil, `var i = 0; while (true) { i++; }`, nil)
+			}()
+			<-started
+			time.Sleep(20 * time.Millisecond)
+			ctx, cancel := context.WithTimeout(context.Background(), 50*time.Millisecond)
+			t0 := time.Now()
+			done := make(chan error, 1)
+			go func() {
+				_, err := interp.Exec(ctx, match.Bindings{"n": 2.0}, nil, []string{`while (true) { }`, `return {ok: true};`}[k%2], nil)
+				done <- err
+			}()
+			select {
+			case <-done:
+				rec.Eval(1)
+				rec.Bucket("uncompiled_executions_with_different_deadlines")
+			case <-time.After(5 * time.Second):
+				rec.Violation("C11:not-stopped:uncompiled-next-to-a-long-execution", fmt.Sprintf("an execution with a 50 ms deadline, compiled on the fly while another execution (30 s deadline) runs on the same interpreter, has not returned after %v", time.Since(t0)), "uncompiled executions with different deadlines")
+				k = 6
+			}
+			cancel()
+			holderCancel()
+			<-holderDone
+		}
 	}
 	// terminating scripts under an already expired context: either outcome is acceptable
 	for i := 0; i < 50; i++ {
